@@ -320,7 +320,30 @@ def rule_r3(ctx, sf: SqlFacts) -> RuleResult:
         else:
             t = norm(hit.text)
             ns_ok = ("pages.namespace_id=dest.namespace_id" in t) or ("pages.namespace_id=source.namespace_id" in t)
-            if ns_ok:
+            # every further conjunct narrows the set of redirects that get marked; the only one that does not change the result is
+            # "not marked yet"
+            import re as _re
+            where = hit.where or ""
+            extra = []
+            for cj in _re.split(r"(?i)\band\b", where):
+                c = norm(cj).strip("()")
+                if not c:
+                    continue
+                if _re.fullmatch(r"[\w.]+=[\w.]+", c) and "=".join(reversed(c.split("="))) in (join, cond, "pages.need_pre_expand=0"):
+                    continue
+                if c in (join, cond, "pages.namespace_id=dest.namespace_id", "pages.namespace_id=source.namespace_id",
+                         "dest.namespace_id=pages.namespace_id", "source.namespace_id=pages.namespace_id",
+                         "=".join(reversed(join.split("="))), "pages.need_pre_expand=0", "pages.need_pre_expand!=1", "pages.need_pre_expand<>1",
+                         "pages.need_pre_expandisnot1", "notpages.need_pre_expand", "pages.need_pre_expandisnull" ):
+                    continue
+                extra.append(cj.strip())
+            if not where:
+                raise AnalysisError("analyze_templates: WHERE clause of the redirect propagation not recognised")
+            if extra:
+                rr.bad(Finding("C17.R3", CORE, FN, "UPDATE pages ... AND " + " AND ".join(extra)[:80],
+                               "the redirect propagation ({}) carries a further filter `{}`: redirects from or to a marked template that do not "
+                               "satisfy it stay unmarked".format(label, " AND ".join(extra)[:80]), hit.call.lineno))
+            elif ns_ok:
                 rr.ok(FN, label, {"sql": hit.text[:140]})
             else:
                 rr.bad(Finding("C17.R3", CORE, FN, "UPDATE pages ... " + join,
